@@ -428,4 +428,37 @@ theorem translated_Transaction_Size_is_the_model (t : Transaction) :
 
 example : Generated.Translated.Transaction_Size [some [1, 2, 3], some []] = .ok (some [0, 0, 0, 13]) := by decide
 
+/-! ### `EncodeString` (the login / password obfuscation) against its regenerated body
+
+  `Generated.encodeStringShape` is the signature and the statements of `hotline.EncodeString`, re-extracted
+  on every run with identifiers renamed by position.  The text says: a fresh slice of the argument's length
+  whose element `i` is `255 - arg[i]` for every `i` below the length.  `obfuscate_is_that_loop` is exactly
+  that statement about the model's `obfuscate`, for every byte string and every index. -/
+
+theorem generated_encodeString_shape :
+    Generated.encodeStringShape =
+      ["func([]byte) []byte",
+       "v0 := make([]byte, len(p0))",
+       "for v1 := 0; v1 < len(p0); v1++ { v0[v1] = 255 - p0[v1] }",
+       "return v0"] := by decide
+
+theorem obfuscate_is_that_loop (b : Bytes) :
+    (obfuscate b).length = b.length ∧
+    ∀ (i : Nat) (h : i < b.length), (obfuscate b)[i]? = some (255 - b[i]) := by
+  refine ⟨by simp [obfuscate], fun i h => ?_⟩
+  simp [obfuscate, h]
+
+/-- … and a list with those two properties is `obfuscate b`: the loop text determines the result. -/
+theorem that_loop_is_obfuscate (b r : Bytes) (hl : r.length = b.length)
+    (he : ∀ (i : Nat) (h : i < b.length), r[i]? = some (255 - b[i])) : r = obfuscate b := by
+  apply List.ext_getElem?
+  intro i
+  by_cases h : i < b.length
+  · rw [he i h, (obfuscate_is_that_loop b).2 i h]
+  · have h1 : r.length ≤ i := by omega
+    have h2 : (obfuscate b).length ≤ i := by rw [(obfuscate_is_that_loop b).1]; omega
+    rw [List.getElem?_eq_none h1, List.getElem?_eq_none h2]
+
+example : obfuscate [0, 97, 255] = [255, 158, 0] := by decide
+
 end Mobius.C01
